@@ -53,6 +53,7 @@ def run(chk):
 
     for target, cls in (("DL_POLY_EAM", "TABEAM_EAMTabulation"), ("DL_POLY_EAM_fs", "TABEAM_FinnisSinclair_EAMTabulation")):
         chk.attempt("F/" + target, lambda: W.factory_route(chk, P, "C05.F", W.resolve_target(P, target), cls, eam=True, label=target))
+    W.path_state_rule(chk, P, "C05.S", "TABEAM write and build path")
     chk.assume("element species labels are distinct (one EAMPotential per species: builder obligation C03.B)")
     chk.assume("species labels are non-empty strings")
     chk.assume("floating-point rounding of i*step is not decided")
